@@ -164,12 +164,15 @@ Definition how_ok_none (c : howcfg) (how : string) : bool :=
       let f := impl_flags c true how in
       match f_kind f with
       | Some JCross => (jkind_eqb k JInner || jkind_eqb k JCross) && f_cross f && negb (f_left_only f)
+                       && negb (f_right_side f)
       | _ => false
       end
   | None => false
   end.
 
 Definition cfg_how_ok (c : howcfg) : bool := forallb (how_ok c) documented.
+(** the two spellings whose meaning without a condition is the product *)
+Definition cfg_none_ok (c : howcfg) : bool := forallb (how_ok_none c) ["inner"; "cross"].
 
 (** every documented spelling reaches the join kind Spark gives it, with the flags of that kind *)
 Theorem how_total (c : howcfg) :
@@ -196,8 +199,8 @@ Definition pinned_cfg : howcfg :=
      ("semi", "left_semi"); ("leftsemi", "left_semi"); ("anti", "left_anti"); ("leftanti", "left_anti")]
     "cross" "cross" "cross" "inner" "_"%char " "%char ["left anti"; "left semi"] "cross" "full outer" "right".
 
-Example pinned_cfg_ok : cfg_how_ok pinned_cfg = true.
-Proof. vm_compute. reflexivity. Qed.
+Example pinned_cfg_ok : cfg_how_ok pinned_cfg = true /\ cfg_none_ok pinned_cfg = true.
+Proof. vm_compute. split; reflexivity. Qed.
 
 (** spellings Spark accepts (it lower-cases) but that take a wrong path here *)
 Example upper_case_spellings_not_ok :
